@@ -265,6 +265,8 @@ def run_route(case):
         return run_failed_set_keys(case)
     if route == "after-signed-stale":
         return run_after_signed_stale(case)
+    if route in ("replayed-mac", "retired-key"):
+        return run_replay_or_retired(case)
     report_eid = b"" if case["report_eid"] == "empty" else real_eid
     if route == "raw-empty-eid":
         cfg = EmptyEidCfg.from_desc(case["cfg"])
@@ -345,6 +347,46 @@ def run_after_signed_stale(case):
         out = w.recv("get")
         if classify_out(out, "get") == "skipped" and not w.client_queue_empty():
             out = w.recv("get")
+        return classify_out(out, "get"), out
+    finally:
+        w.close()
+
+
+def run_replay_or_retired(case):
+    """replayed-mac: request 1 gets its genuine reply; the reply forged for request 2 carries the 12 MAC octets of that
+    genuine reply (copied from the wire). retired-key: the session's keys are replaced by set_keys(); a reply signed
+    with the *previous* auth key answers the next request."""
+    mod, fast = drivers.subject()
+    cfg = Cfg.from_desc(case["cfg"])
+    w = drivers.SplitWorld(cfg)
+    try:
+        o = w.send("get", rb.oid_str(SYS))
+        req1 = drivers.open_request(cfg, w.take_request(), strict=False, check_mac=False)
+        genuine1 = drivers.reply_for(cfg, req1, [(SYS, rb.enc_octets(b"GENUINE"))])
+        w.inject(genuine1)
+        out = w.recv("get")
+        if out.kind != "ok":
+            return "genuine-lost", out
+        if case["route"] == "retired-key":
+            new = Cfg("v3", auth=cfg.auth, priv=cfg.priv, auth_pass=b"rotated-auth", priv_pass=b"rotated-priv", engine_id=cfg.engine_id)
+            eid, user, a_alg, a_key, p_alg, p_key = new.raw_args()
+            o = drivers.call(w.sock.set_keys, user, a_alg, a_key, p_alg, p_key)
+            if o.kind != "ok":
+                return "not-sent", None
+        else:
+            new = cfg
+        o = w.send("get", rb.oid_str(SYS))
+        req2 = drivers.open_request(new, w.take_request(), strict=False, check_mac=False)
+        pdu = rb.build_pdu(rb.PDU_RESPONSE, req2.request_id, 0, 0, [(SYS, rb.enc_octets(b"FORGED"))])
+        if case["route"] == "retired-key":
+            forged = drivers.seal_reply(cfg, req2.msg_id, cfg.engine_id, req2.boots, req2.time, rb.build_scoped(cfg.engine_id, b"", pdu))
+        else:
+            r1 = rb.parse_message(genuine1, strict=False)
+            body = drivers.seal_reply(cfg, req2.msg_id, cfg.engine_id, req2.boots, req2.time, rb.build_scoped(cfg.engine_id, b"", pdu))
+            r2 = rb.parse_message(body, strict=False)
+            forged = body[: r2.auth_off] + r1.auth_params + body[r2.auth_off + 12 :]
+        w.inject(forged)
+        out = w.recv("get")
         return classify_out(out, "get"), out
     finally:
         w.close()
@@ -531,6 +573,8 @@ def gen_routes(tier):
                     for encrypt in (True, False) if priv else (False,):
                         yield {"kind": "route", "cfg": cfg.describe(), "route": route, "report_eid": report_eid, "key": key, "encrypt": encrypt}
             yield {"kind": "route", "cfg": cfg.describe(), "route": "in-flight", "report_eid": "real", "key": "none", "encrypt": False}
+            yield {"kind": "route", "cfg": cfg.describe(), "route": "replayed-mac", "report_eid": "real", "key": "mac-of-an-earlier-reply", "encrypt": False}
+            yield {"kind": "route", "cfg": cfg.describe(), "route": "retired-key", "report_eid": "real", "key": "previous-auth-key", "encrypt": False}
             for which in ("stale-msgid", "stale-rid"):
                 for cnt in (1, 2):
                     yield {"kind": "route", "cfg": cfg.describe(), "route": "after-signed-stale", "report_eid": "real", "key": which, "encrypt": False, "stale_count": cnt}
@@ -605,7 +649,7 @@ def run(tier):
     rec = common.Recorder(PROPERTY, tier, LEVEL, MODULE)
     rec.rule = (
         "otherwise-matching reply x MAC in {valid, zero, random, wrong key, absent, short, long, each of the 96 single-bit flips, octet pairs / triples whose differences cancel under XOR or sum} x auth flag x priv flag (ciphertext / plaintext) x "
-        "{GetResponse, Report} x {MD5,SHA1} x {none,DES,AES} x pending operation, each followed by the genuine reply; after engine-id discovery by 4 routes (socket created without engine id / set_keys after discovery x Report carrying the real or an EMPTY engine id; keys installed while a request sent under the anonymous user is in flight, then a reply with msgFlags 0; a refused set_keys on a session holding keys, then a reply under a guessable key; a genuinely signed but non-matching message followed, within the same receive call, by a reply with no authentication; the reportableFlag bit set on forged replies; genuine replies of 10..3900-octet values with one octet changed at offsets spread over the datagram) "
+        "{GetResponse, Report} x {MD5,SHA1} x {none,DES,AES} x pending operation, each followed by the genuine reply; after engine-id discovery by 4 routes (socket created without engine id / set_keys after discovery x Report carrying the real or an EMPTY engine id; keys installed while a request sent under the anonymous user is in flight, then a reply with msgFlags 0; a refused set_keys on a session holding keys, then a reply under a guessable key; a genuinely signed but non-matching message followed, within the same receive call, by a reply with no authentication; the reportableFlag bit set on forged replies; the MAC of an earlier genuine reply replayed on a forged one; a reply signed with the key that set_keys() has just replaced; genuine replies of 10..3900-octet values with one octet changed at offsets spread over the datagram) "
         "a reply authenticated (and encrypted) under each key anybody can compute {all-zero, zero master localized to the engine id / to the empty id, user name}; public clients with the first discovery datagram lost, "
         "refresh retried, then a reply with msgFlags 0. Non-trivial: every case (all are distinct forgeries)."
     )
